@@ -137,6 +137,12 @@ def run(prop, tier=None, replay=None):
                 inputs.append(("mut3", mutate_lines(b["out"], b["ed"]), {"out": b["out"], "ed": b["ed"]}))
         for i in range(300 if tier == "quick" else 20000):
             inputs.append(("random", random_text(rng, rng.randint(5, 200)), {"seed": chk.seed, "i": i}))
+        # deep nesting (valid programs): the parser must still answer with a tree or a syntax error
+        from . import effort
+        for fam_, sizes_ in (("nested-parens", (10, 30, 40, 80)), ("nested-paren-sums", (30, 60)), ("nested-if", (50, 150)), ("nested-block-do", (150,)),
+                             ("long-sum", (300,)), ("n-statements", (400,)), ("shared-label-do-action", (60,))):
+            for n_ in sizes_:
+                inputs.append(("deep", effort.fam(fam_, n_), {"family": fam_, "n": n_}))
         # invalid UTF-8 at different position classes of a file
         base = "program p\n  character(len=3) :: s\n  s = 'abc' ! comment\n  print *, s\nend program p\n".encode()
         positions = [0, 8, 10, 20, 38, 45, 50, 60, len(base) - 1, len(base)]
